@@ -238,4 +238,98 @@ theorem link_bitflips (k n d tc : Nat) (hk : 0 < k) (hn : 0 < n) (G : List Nat) 
   link_corrects k n hk hn G t hb lo hpair dec chan msgs es gs' hm hes hcw hesn hdiv hgs' hflat hchan
     (fun m e hm' he => DecProofs.nearest_decoder_corrects G n k d tc dec hrange hnear hd ht m e hm' (hw e he))
 
+theorem xorBits_bitsOf (n a b : Nat) : xorBits (bitsOf n a) (bitsOf n b) = bitsOf n (a ^^^ b) := by
+  unfold bitsOf
+  generalize List.range n = l
+  induction l with
+  | nil => simp [xorBits]
+  | cons i is ih => simp only [List.map_cons, xorBits, Nat.testBit_xor, ih]
+
+theorem xorBits_append : ∀ (a c b d : List Bool), a.length = c.length →
+    xorBits (a ++ b) (c ++ d) = xorBits a c ++ xorBits b d
+  | [], [], b, d, _ => by simp [xorBits]
+  | x :: xs, y :: ys, b, d, h => by
+    simp only [List.cons_append, xorBits]
+    rw [xorBits_append xs ys b d (by simpa using h)]
+  | [], _ :: _, _, _, h => by simp at h
+  | _ :: _, [], _, _, h => by simp at h
+
+/-- flipping the code bits marked by the per-block masks `es` gives the blocks `c_i ⊕ e_i` -/
+theorem xorBits_blocks (n : Nat) (G : List Nat) : ∀ (msgs : List (List Bool)) (es : List Nat), es.length = msgs.length →
+    xorBits ((msgs.map fun b => bitsOf n (encode G (maskOf b))).flatten) ((es.map (bitsOf n)).flatten) =
+      ((msgs.zip es).map fun me => bitsOf n (encode G (maskOf me.1) ^^^ me.2)).flatten
+  | [], [], _ => by simp [xorBits]
+  | m :: ms, e :: es, h => by
+    simp only [List.map_cons, List.flatten_cons, List.zip_cons_cons]
+    rw [xorBits_append _ _ _ _ (by simp [length_bitsOf]), xorBits_bitsOf, xorBits_blocks n G ms es (by simpa using h)]
+  | [], _ :: _, h => by simp at h
+  | _ :: _, [], h => by simp at h
+
+theorem forall₂_displace (t : Table) (lo : Int) : ∀ (pts : List (Int × Int)) (ds : List (Int × Int)), ds.length = pts.length →
+    (∀ d ∈ ds, 4 * (d.1 * d.1 + d.2 * d.2) < lo) →
+    Forall₂ (fun p r => 4 * ((r.1 - p.1) * (r.1 - p.1) + (r.2 - p.2) * (r.2 - p.2)) < lo) pts (displace ds pts)
+  | [], [], _, _ => by simp [displace]
+  | p :: ps, d :: ds, h, hs => by
+    simp only [displace, List.zipWith_cons_cons]
+    refine Forall₂.cons ?_ (forall₂_displace t lo ps ds (by simpa using h) (fun d' hd' => hs d' (by simp [hd'])))
+    have := hs d (by simp)
+    simp only [add_sub_cancel_left]
+    exact this
+  | [], _ :: _, h, _ => by simp at h
+  | _ :: _, [], h, _ => by simp at h
+
+/-- **the executable channel of the driver / harness** (decide the transmitted symbols, flip the code
+bits marked by the per-block masks `es`, re-modulate, displace every symbol by less than half the
+minimum distance) followed by a decoder that corrects the patterns `es` returns the message -/
+theorem link_chanSub (k n : Nat) (hk : 0 < k) (hn : 0 < n) (G : List Nat) (t : Table) (hb : 0 < t.b) (lo : Int) (hlo : 0 < lo)
+    (hpair : t.pts.Pairwise (fun a b => lo ≤ dist2 a b.re b.im)) (hlab : labelsOk t = true)
+    (dec : Nat → Nat) (msgs : List (List Bool)) (es : List Nat) (ds : List (Int × Int))
+    (hm : ∀ b ∈ msgs, b.length = k) (hes : es.length = msgs.length)
+    (hcw : ∀ m, encode G m < 2 ^ n) (hesn : ∀ e ∈ es, e < 2 ^ n)
+    (hdiv : (msgs.length * n) % t.b = 0)
+    (hds : ds.length = msgs.length * n / t.b) (hsmall : ∀ d ∈ ds, 4 * (d.1 * d.1 + d.2 * d.2) < lo)
+    (hdec : ∀ m e, m < 2 ^ k → e ∈ es → dec (encode G m ^^^ e) = m) :
+    link k n G t dec (chanSub t ((es.map (bitsOf n)).flatten) ds) msgs.flatten = some msgs.flatten := by
+  -- the clean code bits and the flipped ones, as groups of `b` bits
+  set cw := (msgs.map fun b => bitsOf n (encode G (maskOf b))).flatten with hcwdef
+  set cw' := ((msgs.zip es).map fun me => bitsOf n (encode G (maskOf me.1) ^^^ me.2)).flatten with hcw'def
+  have hcl : ∀ w ∈ (msgs.map fun b => bitsOf n (encode G (maskOf b))), w.length = n := by
+    intro w hw; obtain ⟨b, _, rfl⟩ := List.mem_map.mp hw; exact length_bitsOf _ _
+  have hcl' : ∀ w ∈ ((msgs.zip es).map fun me => bitsOf n (encode G (maskOf me.1) ^^^ me.2)), w.length = n := by
+    intro w hw; obtain ⟨b, _, rfl⟩ := List.mem_map.mp hw; exact length_bitsOf _ _
+  have hq : msgs.length * n = (msgs.length * n / t.b) * t.b := (Nat.div_mul_cancel (Nat.dvd_of_mod_eq_zero hdiv)).symm
+  have hlen : cw.length = (msgs.length * n / t.b) * t.b := by
+    rw [hcwdef, length_flatten_const n _ hcl, List.length_map]; exact hq
+  have hlen' : cw'.length = (msgs.length * n / t.b) * t.b := by
+    rw [hcw'def, length_flatten_const n _ hcl', List.length_map, List.length_zip, hes, Nat.min_self]; exact hq
+  obtain ⟨gs, hgs, hgf, hgl⟩ := exists_groups t.b hb _ cw hlen
+  obtain ⟨gs', hgs', hgf', hgl'⟩ := exists_groups t.b hb _ cw' hlen'
+  have hmodOf : ∀ (g : List (List Bool)), (∀ x ∈ g, x.length = t.b) →
+      modulate t true g.flatten = some (g.map fun x => idxByLabel t (bitsToNat x)) := by
+    intro g hg
+    unfold modulate
+    have hl := length_flatten_groups t.b g hg
+    have : ¬ (t.b = 0 ∨ g.flatten.length % t.b ≠ 0) := by rw [hl]; simp; omega
+    rw [if_neg this, groups_flatten t.b hb g hg _ (by rw [hl]; exact Nat.le_mul_of_pos_right _ hb)]
+    simp
+  have hzero : ∀ pts : List (Int × Int), Forall₂ (fun p r => 4 * ((r.1 - p.1) * (r.1 - p.1) + (r.2 - p.2) * (r.2 - p.2)) < lo) pts pts := by
+    intro pts
+    induction pts with
+    | nil => exact Forall₂.nil
+    | cons p ps ih => exact Forall₂.cons (by simp; exact hlo) ih
+  apply link_corrects k n hk hn G t hb lo hpair dec _ msgs es gs' hm hes hcw hesn hdiv hgs' hgf'
+  · intro idx hidx
+    rw [← hcwdef, ← hgf, hmodOf gs hgs] at hidx
+    cases hidx
+    -- the channel first decides the clean symbols: that gives back the code bits
+    have hclean : demodHard t ((gs.map fun x => idxByLabel t (bitsToNat x)).map (ptAt t)) = cw := by
+      rw [← hgf]
+      exact demod_close t lo hpair gs _ hgs (forall₂_close_of t lo hlab gs _ hgs (hzero _))
+    unfold chanSub
+    rw [hclean, hcwdef, xorBits_blocks n G msgs es hes, ← hcw'def, ← hgf', hmodOf gs' hgs']
+    simp only
+    refine forall₂_close_of t lo hlab gs' _ hgs' (forall₂_displace t lo _ ds ?_ hsmall)
+    simp [hds, hgl']
+  · exact hdec
+
 end LinkProofs
